@@ -82,6 +82,7 @@ func (l *c07Log) anomaly(s string) {
 type c07Obs struct {
 	idx int
 	log *c07Log
+	st  *c07Script
 }
 
 func (o *c07Obs) ObserveEvent(e observer.Event) {
@@ -113,6 +114,16 @@ func (o *c07Obs) ObserveEvent(e observer.Event) {
 		o.log.anomaly(fmt.Sprintf("event %d without float64 Temperature", code))
 	}
 	o.log.add(o.idx, code, k, t)
+	// scripted fault: THIS observer panics on being handed this event
+	if o.st != nil && o.st.who == o.idx {
+		switch {
+		case o.st.where == c07WhereStartIterObserver && code == c07StartIter && k == o.st.k,
+			o.st.where == c07WhereFinishIterObserver && code == c07FinishIter && k == o.st.k,
+			o.st.where == c07WhereStartObserver && code == c07Start,
+			o.st.where == c07WhereFinishObserver && code == c07Finish:
+			o.st.raise(o.st.pay)
+		}
+	}
 }
 
 // ---- script + recording wrapper around an explorer ----
@@ -128,15 +139,37 @@ const (
 	c07WhereTry
 	c07WhereCoolBefore
 	c07WhereCoolAfter
+	c07WhereStartIterObserver  // observer `who` panics on StartedIteration k
+	c07WhereFinishIterObserver // observer `who` panics on FinishedIteration k
+	c07WhereStartObserver      // observer `who` panics on StartedAnnealing
+	c07WhereFinishObserver     // observer `who` panics on FinishedAnnealing
 )
+
+var c07WhereNames = []string{"none", "try", "coolBefore", "coolAfter", "startIterObserver", "finishIterObserver", "startObserver", "finishObserver"}
 
 type c07Script struct {
 	initPanic    int
 	k            uint64
 	where, pay   int
+	who          int // the observer that panics (where >= c07WhereStartIterObserver)
+	td           int // payload kind of a panic raised by TearDown (0: TearDown returns)
 	tries, cools uint64
 	origErr      error
 	origOther    string
+	tdErr        error
+	tdOther      string
+}
+
+func (s *c07Script) raiseTearDown() {
+	switch s.td {
+	case c07PayError:
+		panic(s.tdErr)
+	case c07PayOther:
+		panic(s.tdOther)
+	case c07PayNil:
+		var nothing interface{}
+		panic(nothing)
+	}
 }
 
 func (s *c07Script) raise(p int) {
@@ -165,6 +198,7 @@ func (x *c07Explorer) Initialise() {
 func (x *c07Explorer) TearDown() {
 	x.log.pseudo(c07TearDown, 0)
 	x.Explorer.TearDown()
+	x.st.raiseTearDown()
 }
 func (x *c07Explorer) TryRandomChange() {
 	x.st.tries++
@@ -327,6 +361,8 @@ type c07Case struct {
 	k      uint64 // absolute iteration number at which the explorer panics (0 = never)
 	where  int
 	pay    int
+	who    int // panicking observer (where >= c07WhereStartIterObserver)
+	td     int // TearDown panics with this payload kind (0 = no)
 	clone  bool // anneal a DeepClone() of the built annealer (what scenario.Runner does)
 	second bool // observe a SECOND Anneal() of the same instance (currentIteration starts at c0 = what the first left)
 	raw    bool
@@ -337,7 +373,10 @@ type c07Result struct {
 	c0       uint64
 	t0bits   uint64
 	log      *c07Log
-	outcome  int // 0 returned, 1 re-panicked with the injected value (or an error wrapping it), 3 re-panicked with something else
+	// 0 returned; re-panicked with: 1 the expected injected error or an error wrapping it, 2 the expected injected string,
+	// 4 an error that is none of the injected ones (what a nil payload becomes), 3 anything else (incl. the value of the WRONG panic).
+	// "expected" = TearDown's value if TearDown was scripted to panic (it replaces the panic in flight), else the primary fault's
+	outcome  int
 	finalIt  uint64
 	finalT   uint64
 	setupBad string
@@ -359,7 +398,8 @@ func c07Catch(f func()) (panicked bool, val interface{}) {
 
 func c07Execute(c c07Case) c07Result {
 	log := &c07Log{}
-	st := &c07Script{origErr: errors.New("c07 scripted failure"), origOther: "c07 scripted failure (string)"}
+	st := &c07Script{origErr: errors.New("c07 scripted failure"), origOther: "c07 scripted failure (string)",
+		tdErr: errors.New("c07 scripted TearDown failure"), tdOther: "c07 scripted TearDown failure (string)"}
 	inner := c07BuildExplorer(c.expl, c.t0, c.a)
 	wrapper := &c07Explorer{Explorer: inner, log: log, st: st}
 
@@ -387,7 +427,7 @@ func c07Execute(c c07Case) c07Result {
 	ann.SetLogHandler(new(loggers.NullLogger))
 	inner.SetLogHandler(new(loggers.NullLogger))
 	for i := 0; i < c.m; i++ {
-		ann.AddObserver(&c07Obs{idx: i, log: log})
+		ann.AddObserver(&c07Obs{idx: i, log: log, st: st})
 	}
 	// scenario.Runner.wireObservers: the annealer observes its explorer and its model
 	if en, ok := inner.(observer.EventNotifier); ok {
@@ -412,19 +452,29 @@ func c07Execute(c c07Case) c07Result {
 	}
 	res.c0 = counter.VerifCurrentIteration()
 	res.t0bits = math.Float64bits(log.temp())
-	st.initPanic, st.k, st.where, st.pay = c.init, c.k, c.where, c.pay
+	st.initPanic, st.k, st.where, st.pay, st.who, st.td = c.init, c.k, c.where, c.pay, c.who, c.td
 
 	panicked, val := c07Catch(ann.Anneal)
+	wantErr, wantOther := st.origErr, st.origOther
+	if c.td != c07PayNone && c.init == c07PayNone {
+		wantErr, wantOther = st.tdErr, st.tdOther
+	}
 	switch {
 	case !panicked:
 		res.outcome = 0
 	default:
 		res.outcome = 3
-		if s, ok := val.(string); ok && s == st.origOther {
-			res.outcome = 1
+		if s, ok := val.(string); ok && s == wantOther {
+			res.outcome = 2
 		}
-		if e, ok := val.(error); ok && (e == st.origErr || pkgerrors.Cause(e) == st.origErr) {
-			res.outcome = 1 // the injected error itself or a wrapper of it (wrapping is not part of the property)
+		if e, ok := val.(error); ok && e != nil {
+			cause := pkgerrors.Cause(e)
+			switch {
+			case e == wantErr || cause == wantErr:
+				res.outcome = 1 // whether it is wrapped is not part of the property
+			case e != st.origErr && cause != st.origErr && e != st.tdErr && cause != st.tdErr:
+				res.outcome = 4
+			}
 		}
 	}
 	res.finalIt = counter.VerifCurrentIteration()
@@ -434,6 +484,34 @@ func c07Execute(c c07Case) c07Result {
 
 // ---- implementation-side oracle: the property, evaluated on what the real code did (c0 = 0 only) ----
 
+// c07Fault: does the scripted primary fault actually fire, and how many iterations are started
+func c07Fault(c c07Case) (fires bool, iters uint64) {
+	if c.init != c07PayNone {
+		return true, 0
+	}
+	inBudget := c.k >= 1 && c.k <= c.n
+	observerThere := c.who < c.m
+	switch c.where {
+	case c07WhereTry, c07WhereCoolBefore, c07WhereCoolAfter:
+		if inBudget {
+			return true, c.k
+		}
+	case c07WhereStartIterObserver, c07WhereFinishIterObserver:
+		if inBudget && observerThere {
+			return true, c.k
+		}
+	case c07WhereStartObserver:
+		if observerThere {
+			return true, 0
+		}
+	case c07WhereFinishObserver:
+		if observerThere {
+			return true, c.n
+		}
+	}
+	return false, c.n
+}
+
 func c07Oracle(c c07Case, r c07Result) []string {
 	var bad []string
 	fail := func(format string, args ...interface{}) {
@@ -441,15 +519,12 @@ func c07Oracle(c c07Case, r c07Result) []string {
 			bad = append(bad, fmt.Sprintf(format, args...))
 		}
 	}
-	stepPanic := c.init == c07PayNone && c.where != c07WhereNone && c.k >= 1 && c.k <= c.n
-	anyPanic := stepPanic || c.init != c07PayNone
-	iters := c.n // iterations started
-	if stepPanic {
-		iters = c.k
+	fires, iters := c07Fault(c)
+	where := c.where
+	if !fires || c.init != c07PayNone {
+		where = c07WhereNone
 	}
-	if c.init != c07PayNone {
-		iters = 0
-	}
+	obsFault := where >= c07WhereStartIterObserver
 	// temperature recurrence by repeated multiplication
 	temps := []float64{c.t0}
 	for i := uint64(0); i < iters; i++ {
@@ -459,21 +534,27 @@ func c07Oracle(c c07Case, r c07Result) []string {
 		code int
 		k    uint64
 	}
-	var want []ek
+	// the events sent, in order; if an observer panicked, the last one reached observers 0..who only
+	var sent []ek
 	if c.init == c07PayNone {
-		want = append(want, ek{c07Start, 0})
+		sent = append(sent, ek{c07Start, 0})
 		for j := uint64(1); j <= iters; j++ {
-			want = append(want, ek{c07StartIter, j})
-			if !(stepPanic && j == c.k) {
-				want = append(want, ek{c07FinishIter, j})
+			sent = append(sent, ek{c07StartIter, j})
+			cutShort := j == c.k && (where == c07WhereTry || where == c07WhereCoolBefore || where == c07WhereCoolAfter || where == c07WhereStartIterObserver)
+			if !cutShort {
+				sent = append(sent, ek{c07FinishIter, j})
 			}
 		}
-		if !anyPanic {
-			want = append(want, ek{c07Finish, c.n})
+		if where == c07WhereNone || where == c07WhereFinishObserver {
+			sent = append(sent, ek{c07Finish, c.n})
 		}
 	}
 	// every observer: exactly the skeleton, in order, with the right temperatures
 	for i := 0; i < c.m; i++ {
+		want := sent
+		if obsFault && i > c.who {
+			want = sent[:len(sent)-1]
+		}
 		var got []ek
 		for _, e := range r.log.entries {
 			if e.who != i {
@@ -504,13 +585,14 @@ func c07Oracle(c c07Case, r c07Result) []string {
 		}
 	}
 	// lock-step delivery: each event goes to observers 0..m-1 in registration order before the next one is sent
+	// (the event on which an observer panicked stops at that observer)
 	pos := 0
 	for _, e := range r.log.entries {
 		if e.who < 0 {
-			if pos != 0 {
+			if pos != 0 && !(obsFault && e.code == c07TearDown && pos == (c.who+1)%c.m) {
 				fail("a call on the explorer happened while an event was still being delivered (next observer %d of %d)", pos, c.m)
-				pos = 0
 			}
+			pos = 0
 			continue
 		}
 		if e.who != pos {
@@ -544,7 +626,10 @@ func c07Oracle(c c07Case, r c07Result) []string {
 		fail("explorer initialised %d times, at log position %d (first start event at %d)", nInit, initAt, firstStart)
 	}
 	wantTry, wantCool := iters, iters
-	if stepPanic && c.where == c07WhereTry {
+	if where == c07WhereStartIterObserver {
+		wantTry, wantCool = iters-1, iters-1
+	}
+	if where == c07WhereTry {
 		wantCool = iters - 1
 	}
 	if nTry != wantTry || nCool != wantCool {
@@ -556,24 +641,28 @@ func c07Oracle(c c07Case, r c07Result) []string {
 	if c.init != c07PayNone && nTear != 0 {
 		fail("TearDown ran although Initialise panicked")
 	}
-	wantIt := iters
-	if r.finalIt != wantIt {
-		fail("currentIteration is %d afterwards, expected %d", r.finalIt, wantIt)
+	if r.finalIt != iters {
+		fail("currentIteration is %d afterwards, expected %d", r.finalIt, iters)
 	}
-	// outcome
+	// outcome: whatever panicked during the run comes out of Anneal() (TearDown's panic, if any, replaces it)
 	pay := c.pay
 	if c.init != c07PayNone {
 		pay = c.init
+	} else if c.td != c07PayNone {
+		pay = c.td
 	}
+	wantOutcome := map[int]int{c07PayError: 1, c07PayOther: 2, c07PayNil: 4}[pay]
 	switch {
-	case !anyPanic:
+	case !fires && c.td == c07PayNone:
 		if r.outcome != 0 {
 			fail("Anneal() panicked without an injected fault")
 		}
-	case pay == c07PayNil:
-		// reported separately (swallowed): see c07Swallowed
-	case r.outcome != 1:
-		fail("injected panic (payload kind %d) was not re-raised as expected: outcome %d", pay, r.outcome)
+	case !fires && c.td == c07PayNil:
+		// panic(nil) inside TearDown after a COMPLETED run: outside the property (noted; the model says it is swallowed)
+	case pay == c07PayNil && r.outcome == 0:
+		// reported by c07Emit as its own line
+	case r.outcome != wantOutcome:
+		fail("injected panic (payload kind %d) was not re-raised as expected: outcome %d, expected %d", pay, r.outcome, wantOutcome)
 	}
 	// cooling never heats
 	if c.t0 >= 0 && !math.IsInf(c.t0, 0) && c.a >= 0 && c.a <= 1 {
@@ -620,12 +709,15 @@ func c07Emit(c c07Case) {
 	c07Stats["expl_"+c.expl]++
 	c07Stats[fmt.Sprintf("N_%d", c.n)]++
 	c07Stats[fmt.Sprintf("observers_%d", c.m)]++
-	c07Stats["where_"+[]string{"none", "try", "coolBefore", "coolAfter"}[c.where]]++
+	c07Stats["where_"+c07WhereNames[c.where]]++
+	if c.td != c07PayNone {
+		c07Stats["teardown_panics_"+[]string{"", "error", "other", "nil"}[c.td]]++
+	}
 	c07Stats["init_"+[]string{"ok", "panicError", "panicOther", "panicNil"}[c.init]]++
 	if c.where != c07WhereNone {
 		c07Stats["payload_"+[]string{"", "error", "other", "nil"}[c.pay]]++
 	}
-	c07Stats["outcome_"+[]string{"returned", "reraised", "", "else"}[r.outcome]]++
+	c07Stats["outcome_"+[]string{"returned", "reraisedError", "reraisedValue", "else", "reraisedNewError"}[r.outcome]]++
 	if c.clone {
 		c07Stats["deepclone"]++
 	}
@@ -637,7 +729,7 @@ func c07Emit(c c07Case) {
 	}
 	c07Stats["log_entries"] += len(entries)
 	emit(J{"kind": "case", "ann": c.ann, "expl": c.expl, "N": c.n, "m": c.m, "init": c.init, "k": c.k, "where": c.where,
-		"pay": c.pay, "clone": c.clone, "second": c.second, "raw": c.raw, "c0": r.c0, "T0": r.t0bits, "a": math.Float64bits(c.a),
+		"pay": c.pay, "who": c.who, "td": c.td, "clone": c.clone, "second": c.second, "raw": c.raw, "c0": r.c0, "T0": r.t0bits, "a": math.Float64bits(c.a),
 		"log": entries, "out": r.outcome, "fin": r.finalIt, "ft": r.finalT, "anom": len(r.log.anomalies)})
 	if c.second {
 		return
@@ -645,18 +737,96 @@ func c07Emit(c c07Case) {
 	for _, what := range c07Oracle(c, r) {
 		emit(J{"kind": "oracle", "what": what, "annealer": c.ann, "explorer": c.expl, "N": c.n, "observers": c.m,
 			"init_panic": c.init, "panic_iteration": c.k, "panic_where": c.where, "payload": c.pay,
+			"panic_observer": c.who, "teardown_payload": c.td,
 			"T0": fmt.Sprint(c.t0), "a": fmt.Sprint(c.a), "clone": c.clone})
 	}
 	pay := c.pay
 	if c.init != c07PayNone {
 		pay = c.init
+	} else if c.td != c07PayNone {
+		pay = c.td
 	}
-	injected := c.init != c07PayNone || (c.where != c07WhereNone && c.k >= 1 && c.k <= c.n)
+	injected, _ := c07Fault(c)
 	if injected && pay == c07PayNil && r.outcome == 0 {
 		c07Stats["panic_nil_swallowed"]++
 		emit(J{"kind": "oracle", "what": "panic(nil) is not re-raised: Anneal() returns normally (no finish event)",
 			"payload_nil": true, "annealer": c.ann, "explorer": c.expl, "N": c.n, "observers": c.m,
-			"init_panic": c.init, "panic_iteration": c.k, "panic_where": c.where, "payload": c.pay})
+			"init_panic": c.init, "panic_iteration": c.k, "panic_where": c.where, "payload": c.pay, "teardown_payload": c.td})
+	}
+	if injected && pay == c07PayNil && r.outcome == 4 {
+		c07Stats["panic_nil_reraised"]++
+	}
+}
+
+// faults raised by an observer while it is handed an event, and by TearDown itself
+func c07MoreFaults(base c07Case, tier string, rng *prng, run, runObs func(c07Case), pays func(bool) []int) {
+	n := base.n
+	small := n <= 7 || (tier == "thorough" && n <= 20)
+	all := n <= 2 || tier == "thorough"
+	if n >= 1000 {
+		return
+	}
+	// observer panics on the start / finish event
+	for _, where := range []int{c07WhereStartObserver, c07WhereFinishObserver} {
+		for _, pay := range pays(all && small) {
+			c := base
+			c.where, c.pay = where, pay
+			runObs(c)
+		}
+	}
+	// observer panics on StartedIteration k / FinishedIteration k
+	var ks []uint64
+	if small {
+		for k := uint64(1); k <= n; k++ {
+			ks = append(ks, k)
+		}
+	} else {
+		ks = []uint64{1, n, uint64(2 + rng.intn(int(n)-2))}
+	}
+	for _, k := range ks {
+		for _, where := range []int{c07WhereStartIterObserver, c07WhereFinishIterObserver} {
+			for _, pay := range pays(all && small) {
+				c := base
+				c.k, c.where, c.pay = k, where, pay
+				runObs(c)
+			}
+		}
+	}
+	// TearDown panics: after a fault-free run ...
+	for td := c07PayError; td <= c07PayNil; td++ {
+		c := base
+		c.td = td
+		run(c)
+	}
+	// ... after Initialise panicked (TearDown is not deferred yet: nothing changes) ...
+	{
+		c := base
+		c.init, c.td = c07PayError+rng.intn(3), c07PayError+rng.intn(3)
+		run(c)
+	}
+	// ... and on top of another fault, whose panic it replaces (all payload pairs for tiny budgets / thorough)
+	reps := 3
+	if !small {
+		reps = 1
+	}
+	for rep := 0; rep < reps; rep++ {
+		for _, pay := range pays(all && n <= 3) {
+			for _, td := range pays(all && n <= 3) {
+				c := base
+				c.where = c07WhereTry + rng.intn(7)
+				c.pay, c.td = pay, td
+				if n >= 1 {
+					c.k = uint64(1 + rng.intn(int(n)))
+				} else if c.where <= c07WhereFinishIterObserver {
+					c.where = c07WhereStartObserver + rng.intn(2)
+				}
+				if c.where >= c07WhereStartIterObserver {
+					runObs(c)
+				} else {
+					run(c)
+				}
+			}
+		}
 	}
 }
 
@@ -698,11 +868,36 @@ func runC07(args []string) {
 		pick(&c)
 		c07Emit(c)
 	}
+	// a fault raised by an observer needs that observer: m >= 1, who < m
+	runObs := func(c c07Case) {
+		if allM && c.n <= 20 {
+			for m := 1; m < 4; m++ {
+				for who := 0; who < m; who++ {
+					cc := c
+					pick(&cc)
+					cc.m, cc.who = m, who
+					c07Emit(cc)
+				}
+			}
+			return
+		}
+		pick(&c)
+		c.m = 1 + rng.intn(3)
+		c.who = rng.intn(c.m)
+		c07Emit(c)
+	}
+	pays := func(all bool) []int {
+		if all {
+			return []int{c07PayError, c07PayOther, c07PayNil}
+		}
+		return []int{c07PayError + rng.intn(3)}
+	}
 	for ann := 0; ann < 2; ann++ {
 		for _, expl := range c07ExplorerKinds {
 			for _, n := range ns {
 				base := c07Case{ann: ann, expl: expl, n: n}
 				run(base)
+				c07MoreFaults(base, tier, rng, run, runObs, pays)
 				small := n <= 7 || (tier == "thorough" && n <= 20)
 				if small { // an Initialise fault does not depend on the budget
 					for init := c07PayError; init <= c07PayNil; init++ {
